@@ -36,19 +36,3 @@ add(Contract('yp_prolog_visitor.YPPrologVisitor.visitVARIABLE', 'fn', [('self', 
                  '(=> (not (= {var} "_")) (= {avc} {avc0}))',
                  # ... and the renaming is the function `mangle` (injective: spec.mangle_injective)
                  '(=> (not (= {var} "_")) (= {result} (mangle {var})))']))
-
-# ---- predicate expressions (C06): grammar alternative -> AST node; goals are never the internal $CUTIF marker (C12) --
-V = 'yp_prolog_visitor.YPPrologVisitor.'
-add(Contract(V + 'visitTerm', 'pure', [('self', 'CSelf'), ('ctx', 'TermCtx')], ret='TA', value='(tpterm {ctx})',
-             notes='assumed here: the term AST of a goal (bounded-checked by the reader differential, contracts of C16 for literals)'))
-add(Contract(V + 'visitTermpredicate', 'fn', [('self', 'CSelf'), ('ctx', 'TP')], ret='Body',
-             raises={'CompilerError': None},
-             # whatever is accepted is an ordinary goal: compile_body will not read it as its internal marker
-             ensures=['(= {result} (BPred (predid (functorof (tpterm {ctx})))))']))
-add(Contract(V + 'visitSimplepredicate', 'fn', [('self', 'CSelf'), ('ctx', 'SP')], ret='Body',
-             raises={'CompilerError': None},
-             ensures=['(= {result} (spbody {ctx}))']))
-add(Contract(V + 'visitPredicateexpression', 'fn', [('self', 'CSelf'), ('ctx', 'PE')], ret='Body',
-             requires=['(wfpe {ctx})'],          # A-EXT-ANTLR: the tree is a derivation of the grammar rule
-             raises={'CompilerError': None},
-             ensures=['(= {result} (pebody {ctx}))']))
